@@ -28,6 +28,7 @@
 #include <limits.h>		/* CHAR_BIT */
 
 #include "hamm.h"
+#include "verif_annot.h"
 #include "hamm-tables.h"
 
 /**
@@ -45,7 +46,15 @@ void
 vbi_par				(uint8_t *		p,
 				 unsigned int		n)
 {
-	while (n-- > 0) {
+	while (n-- > 0)
+	ZVBI_LOOP_CONTRACT (
+		__CPROVER_assigns (n, p, __CPROVER_object_whole (p))
+		__CPROVER_loop_invariant (n <= __CPROVER_loop_entry (n)
+			&& __CPROVER_same_object (p, __CPROVER_loop_entry (p))
+			&& p == __CPROVER_loop_entry (p)
+				+ (__CPROVER_loop_entry (n) - n))
+		__CPROVER_decreases (n))
+	{
 		uint8_t c = *p;
 
 		/* if 0 == (inv_par[] & 32) change msb of *p. */
@@ -73,7 +82,15 @@ vbi_unpar			(uint8_t *		p,
 {
 	int r = 0;
 
-	while (n-- > 0) {
+	while (n-- > 0)
+	ZVBI_LOOP_CONTRACT (
+		__CPROVER_assigns (n, p, r, __CPROVER_object_whole (p))
+		__CPROVER_loop_invariant (n <= __CPROVER_loop_entry (n)
+			&& __CPROVER_same_object (p, __CPROVER_loop_entry (p))
+			&& p == __CPROVER_loop_entry (p)
+				+ (__CPROVER_loop_entry (n) - n))
+		__CPROVER_decreases (n))
+	{
 		uint8_t c = *p;
 
 		/* if 0 == (inv_par[] & 32) set msb of r. */
